@@ -339,7 +339,7 @@ func checkC02(run *mon.Run, rng *mon.Rand, thorough bool) {
 	for h := 0; h < hist && !run.TooMany(); h++ {
 		r := rng.Split()
 		cfg := WorldCfg{Bridges: 2, Steps: pick(thorough, 300, 600), Periods: []time.Duration{2 * time.Second, 5 * time.Second},
-			Weights: map[string]int{"deposit": 12, "propose": 16, "delete": 6, "finalize": 50, "advance": 14, "role": 2}}
+			Weights: map[string]int{"create": 3, "deposit": 12, "propose": 16, "delete": 6, "finalize": 50, "advance": 14, "role": 2}}
 		w := newL1World(run, r, MonSet{C02: true}, cfg)
 		w.Run()
 		if h == 0 {
